@@ -147,6 +147,15 @@ impl StateMachineTrait for Metadata {
                 sealed_segment_entry_count,
             } => {
                 if let Some(topic_state) = state.topics.get_mut(&name) {
+                    // Reject a rollover whose counters would overflow, before touching the state.
+                    let (Some(new_offset), Some(next_segment)) = (
+                        topic_state
+                            .last_sealed_entry_offset
+                            .checked_add(sealed_segment_entry_count),
+                        topic_state.current_segment.checked_add(1),
+                    ) else {
+                        return Err("Rollover counter overflow".into());
+                    };
                     let sealed_seg = topic_state.current_segment;
                     topic_state
                         .sealed_segments
@@ -154,8 +163,8 @@ impl StateMachineTrait for Metadata {
                     topic_state
                         .segment_leaders
                         .insert(sealed_seg, topic_state.leader_node);
-                    topic_state.last_sealed_entry_offset += sealed_segment_entry_count;
-                    topic_state.current_segment += 1;
+                    topic_state.last_sealed_entry_offset = new_offset;
+                    topic_state.current_segment = next_segment;
                     topic_state.leader_node = new_leader;
                     topic_state
                         .segment_leaders
